@@ -545,6 +545,19 @@ def shaped_def(rng, alphabet, names, nmax):
         d["final_states"] = set()
     elif not d["final_states"] and rng.random() < 0.7:
         d["final_states"] = {rng.choice(sorted(d["states"], key=enc.sort_key))}
+    if len(d["states"]) >= 2 and rng.random() < 0.15:
+        # the initial state is re-entered through empty-string moves only (no symbol edge leads back into it)
+        q0 = d["initial_state"]
+        for q, row in d["transitions"].items():
+            for a in [a for a in row if a != ""]:
+                row[a] = set(row[a]) - {q0}
+                if not row[a]:
+                    del row[a]
+        others = sorted(set(d["states"]) - {q0}, key=enc.sort_key)
+        src = next((t for a, ts in sorted(d["transitions"].get(q0, {}).items()) for t in sorted(ts, key=enc.sort_key) if t != q0),
+                   rng.choice(others))
+        d["transitions"].setdefault(src, {}).setdefault("", set())
+        d["transitions"][src][""] = set(d["transitions"][src][""]) | {q0}
     return d
 
 
